@@ -39,11 +39,18 @@ ASSUMPTIONS = {"*": ["which inconsistent min/max/default combinations must be re
 COST = {"sha256_crypt": (1000, 1300), "sha512_crypt": (1000, 1300), "bcrypt": (4, 6), "bcrypt_sha256": (4, 5), "pbkdf2_sha256": (1, 50),
         "pbkdf2_sha1": (1, 50), "sha1_crypt": (1, 50), "phpass": (7, 10), "scrypt": (1, 4), "bsdi_crypt": (1, 99),
         "django_pbkdf2_sha256": (1, 50), "ldap_sha256_crypt": (1000, 1300), "django_bcrypt": (4, 6), "pbkdf2_sha512": (1, 30),
-        "fshp": (1, 50)}
+        "fshp": (1, 50),
+        # third batch: wrappers and families with their own using() plumbing
+        "ldap_sha512_crypt": (1000, 1300), "ldap_sha1_crypt": (1, 50), "ldap_bcrypt": (4, 6), "django_pbkdf2_sha1": (1, 50),
+        "grub_pbkdf2_sha512": (1, 30)}  # (sun_md5_crypt: 4096 base rounds make every hash cost 30 ms; left out)
+LOGCOST = ("bcrypt", "bcrypt_sha256", "django_bcrypt", "scrypt", "phpass", "ldap_bcrypt")  # cost field is an exponent
 SALTED = {"md5_crypt": "chars", "apr_md5_crypt": "chars", "sha256_crypt": "chars", "sha512_crypt": "chars", "sha1_crypt": "chars",
           "pbkdf2_sha256": "bytes", "pbkdf2_sha1": "bytes", "pbkdf2_sha512": "bytes", "ldap_salted_sha1": "bytes",
           "django_pbkdf2_sha256": "chars", "django_salted_sha1": "chars", "scrypt": "bytes", "bcrypt": "fixed", "des_crypt": "fixed",
-          "bsdi_crypt": "fixed", "phpass": "fixed", "bcrypt_sha256": "fixed", "fshp": "bytes"}
+          "bsdi_crypt": "fixed", "phpass": "fixed", "bcrypt_sha256": "fixed", "fshp": "bytes",
+          "ldap_salted_md5": "bytes", "ldap_salted_sha256": "bytes", "ldap_salted_sha512": "bytes", "django_salted_md5": "chars",
+          "django_pbkdf2_sha1": "chars", "grub_pbkdf2_sha512": "bytes", "ldap_sha512_crypt": "chars",
+          "ldap_sha1_crypt": "chars", "ldap_bcrypt": "fixed"}
 # algorithm-variant settings: hasher -> {keyword: {accepted spelling: value the hash must carry}}; anything else must be refused
 FSHP_V = {0: 0, 1: 1, 2: 2, 3: 3, "0": 0, "1": 1, "2": 2, "3": 3, "sha1": 0, "sha256": 1, "sha384": 2, "sha512": 3}
 PALETTE = sorted(set(COST) | set(SALTED) | {"ldap_md5_crypt", "unix_disabled", "hex_md5", "mysql41"})
@@ -83,8 +90,8 @@ def _gen_settings(rng, name):
             k = rng.choice(["min_rounds", "max_rounds", "default_rounds", "rounds"])
             kw.pop("min_desired_rounds", None) if k == "min_rounds" else None
             kw.pop("max_desired_rounds", None) if k == "max_rounds" else None
-            kw[k] = rng.choice([0, -1, lo - 1 if name not in ("pbkdf2_sha256", "pbkdf2_sha1", "pbkdf2_sha512", "sha1_crypt", "django_pbkdf2_sha256", "bsdi_crypt") else 0,
-                                2 ** 33, 10 ** 10, 99 if name in ("bcrypt", "bcrypt_sha256", "django_bcrypt", "phpass", "scrypt") else 2 ** 40])
+            kw[k] = rng.choice([0, -1, lo - 1 if lo > 1 else 0,
+                                2 ** 33, 10 ** 10, 99 if name in LOGCOST else 2 ** 40])
     if name in SALTED and rng.random() < 0.4:
         kind = SALTED[name]
         kw[rng.choice(["salt_size", "salt_size", "default_salt_size"])] = _num(rng, rng.choice([0, 1, 2, 4, 8, 16, 22, 31, 64, 1024, 5000, -1]))
@@ -145,7 +152,7 @@ def generate(rng, prop, tier):
         g = rng.choice(costed)
         lo, hi = COST[hashers[g]]
         d = rng.randint(lo + (hi - lo) // 3, hi - (hi - lo) // 3)
-        v = rng.choice([0.2, 0.5, max(1, (hi - lo) // 3)]) if hashers[g] not in ("bcrypt", "bcrypt_sha256", "django_bcrypt", "scrypt", "phpass") else 1
+        v = rng.choice([0.2, 0.5, max(1, (hi - lo) // 3)]) if hashers[g] not in LOGCOST else 1
         c = rng.randrange(nclients)
         par = nnodes
         sc = [{"op": "derive", "client": c, "parent": g, "settings": {"default_rounds": d, "vary_rounds": v, "min_rounds": lo, "max_rounds": hi}, "relaxed": False},
@@ -497,8 +504,8 @@ class _W:
         ctx.check(r[1] is not parent.H, "C09", "using-returned-same-object", f"{parent.base}.using({kw})", hasher=parent.base)
         child.H = r[1]
         self.nodes.append(child)
-        if parent.base in COST and (child.d is not None) and child.d <= max(COST[parent.base][1] * 4, 5000) and parent.base not in ("bcrypt", "bcrypt_sha256", "django_bcrypt", "scrypt", "phpass") \
-                or (parent.base in ("bcrypt", "bcrypt_sha256", "django_bcrypt", "scrypt", "phpass") and child.d is not None and child.d <= COST[parent.base][1] + 2):
+        if parent.base in COST and (child.d is not None) and child.d <= max(COST[parent.base][1] * 4, 5000) and parent.base not in LOGCOST \
+                or (parent.base in LOGCOST and child.d is not None and child.d <= COST[parent.base][1] + 2):
             child.expensive = False
         elif parent.base in COST:
             child.expensive = True
@@ -508,7 +515,7 @@ class _W:
         if n.base in COST:
             if n.expensive or n.d is None:
                 return False
-            cap = COST[n.base][1] + 2 if n.base in ("bcrypt", "bcrypt_sha256", "django_bcrypt", "scrypt", "phpass") else 20000
+            cap = COST[n.base][1] + 2 if n.base in LOGCOST else 20000
             top = max(x for x in (n.d, n.hi or 0) if x is not None)
             # budget guard only (never an oracle): what the real hasher would actually spend -- inconsistent settings the model
             # does not follow (known=False) may have pushed its window far above the modelled one
@@ -520,7 +527,7 @@ class _W:
                 if isinstance(v, int):
                     top = max(top, v)
             if n.vary:
-                top = int(top * 2) + 3 if n.base not in ("bcrypt", "bcrypt_sha256", "django_bcrypt", "scrypt", "phpass") else top + 3
+                top = int(top * 2) + 3 if n.base not in LOGCOST else top + 3
             return top <= cap and not n.dirty
         return True
 
@@ -563,7 +570,7 @@ class _W:
         w = op["where"]
         cand = {"below": (lo - 1) if lo else None, "at-min": lo or None, "at-max": hi or None, "above": (hi + 1) if hi else None,
                 "inside": ((lo or clo) + (hi or chi)) // 2}[w]
-        if cand is None or cand < hmin or cand > min(hmax, chi * 3 if n.base not in ("bcrypt", "bcrypt_sha256", "django_bcrypt", "scrypt", "phpass") else chi + 2):
+        if cand is None or cand < hmin or cand > min(hmax, chi * 3 if n.base not in LOGCOST else chi + 2):
             return
         if n.base == "bsdi_crypt" and cand % 2 == 0:
             return
